@@ -181,7 +181,7 @@ def check(ctx):
     table = {}
     for n, t, v in flags:
         keys = g.fact_keys_at(n)
-        cmd = [k[0] for k in keys if k[1] and k[0].startswith('CMD_') or k[1] and k[0].startswith('cmd ==')]
+        cmd = [k[0] for k in keys if 'CMD_' in k[0] and (k[1] or ' and ' in k[0])]
         table.setdefault((t, v), []).append((sorted(cmd), keys))
 
     def under(tv, cmdtxt, status):
